@@ -213,14 +213,15 @@ def family_probes(model):
                 for j in idx:
                     if i == j or any(k not in items for k in range(min(i, j), max(i, j) + 1)):
                         continue
-                    x = 1680.0
+                    x = 1680.0 if (i + j) % 3 else 0.0          # a third of the pairs with the amount 0 (an offset step moves it)
+                    x0 = x
                     if j > i:
                         for k in range(i, j):
                             x = a['up_f'][k - 1](x)
                     else:
                         for k in range(i, j, -1):
                             x = a['down_f'][k - 1](x)
-                    out.append(('en', '1680 %s to %s' % (a['words'][i - 1], a['words'][j - 1]), name, j, float(x)))
+                    out.append(('en', '%d %s to %s' % (x0, a['words'][i - 1], a['words'][j - 1]), name, j, float(x)))
             continue
         chain = FAMILIES[name]
         idx = sorted(items)
@@ -267,9 +268,12 @@ def complete_families(ctx, drv, cfg):
     probes_ = family_probes(model)
     n0 = len(ops)
     for lang, text, fam, j, want in probes_:
-        form = rng.randrange(3)
+        form = rng.randrange(4)
         if form == 1:
             text = 'zq = %s\nzq to %s' % tuple(text.split(' to '))
+        elif form == 2:
+            amount_, rest_ = text.split(' ', 1)
+            text = 'wv = %s\nwv %s' % (amount_, rest_)           # the amount held by a name
         ops.append({'op': 'execute', 'c': 7, 'lang': lang, 'text': text})
     rs = drv.run(ops)[n0:]
     for (lang, text, fam, j, want), r in zip(probes_, rs):
@@ -301,7 +305,8 @@ def decline_equivalence(ctx, drv, cfg):
     ops += [{'op': 'new_calc', 'c': 6}] + gh.config_ops(cfg, 6, seg=False) + [{'op': 'add_rule', 'c': 6, 'lang': lang, 'patterns': [p2], 'spec': spec}]
     m1 = {'zork {NUMBER:a} {NUMBER:b}': 'zork 3 4', '{NUMBER:a} zork': '6 zork', 'zork {TEXT:t}': 'zork abc'}[p1]
     m2 = {'blip {NUMBER:n}': 'blip 8', '{NUMBER:n} blip': '8 blip'}[p2]
-    lines = [m2, m1, '%s + %s' % (m1, m2), '%s + %s' % (m2, m1), '%s * 2' % m2, '2 * (%s) + %s' % (m2, m1), '%s\n%s' % (m1, m2)]
+    lines = [m2, m1, '%s + %s' % (m1, m2), '%s + %s' % (m2, m1), '%s * 2' % m2, '2 * (%s) + %s' % (m2, m1), '%s\n%s' % (m1, m2),
+             ' + '.join([m2] * rng.choice([17, 33, 40]))]            # one rule fired many times on a line
     n0 = len(ops)
     for t in lines:
         ops.append({'op': 'execute', 'c': 5, 'lang': lang, 'text': t})
@@ -312,6 +317,13 @@ def decline_equivalence(ctx, drv, cfg):
         res.cases += 1
         res.count('class:declined-pattern-equivalence')
         res.distinct.add('decline', lang, p1, p2, t)
+        if k == len(lines) - 1:
+            slot = mon.slot0(ra)
+            want_ = 8.0 * w * (t.count('+') + 1)
+            if not (mon.kind(slot) == 'number' and mon.fval(slot) == want_):
+                res.violation('rule:matching-line:many-on-a-line', 'a rule with the pattern %r (%s) should turn the %d matches of %r into %r, got %s' % (p2, lang, t.count('+') + 1, t[:60] + ' ...', want_, mon.describe(slot)),
+                              {'lang': lang, 'text': t, 'ops': [o for o in ops[:n0] if o.get('c') == 5] + [{'op': 'execute', 'c': 5, 'lang': lang, 'text': t}]})
+                continue
         if k == 0:
             slot = mon.slot0(ra)
             if not (mon.kind(slot) == 'number' and mon.fval(slot) == 8.0 * w):
